@@ -96,11 +96,11 @@ pub fn reassignment(input: Node) -> (r: Result<Reassignment, VErr>)
 }} // verus!
 fn main() {{}}
 """
-    obls = [Obl("C10.reassign.path-ident", ["C10"], fn="parse_path[Rule::ident]", desc="parse_path, root name: the reported const flag is the variable's const flag, captured or not"),
-            Obl("C10.reassign.const-rejected", ["C10", "C03", "C02"], fn="Parser::reassignment", desc="Parser::reassignment: a path whose root is const is rejected; the value's type must fit the place")]
+    obls = [Obl("C10.reassign.path-ident", ["C10", "C11"], fn="parse_path[Rule::ident]", desc="parse_path, root name: the reported const flag is the variable's const flag, captured or not"),
+            Obl("C10.reassign.const-rejected", ["C10", "C03", "C02", "C11"], fn="Parser::reassignment", desc="Parser::reassignment: a path whose root is const is rejected; the value's type must fit the place")]
     return gen, obls, log
 
 
-UNITS = [VUnit("c10_reassign", ["C10", "C03", "C02"], "element / field assignment: const root rejected, type fits", build)]
+UNITS = [VUnit("c10_reassign", ["C10", "C03", "C02", "C11"], "element / field assignment: const root rejected, type fits", build)]
 UNITS[0].assumes = ["parse_path is a Pratt-parser closure: only the root-name arm (after the scope lookup) is a fragment under contract; the postfix arms (index, field) pass the flag on unchanged (by inspection: `is_const` is forwarded) -- not under contract",
                     "pest API, sub-parsers, the compatibility test abstract; diagnostics dropped"]
